@@ -119,6 +119,45 @@ def invalid_args_case(rng):
     return ops
 
 
+def refused_resize_case(rng):
+    """a resizable chunked dataset of rank 2-3; a Resize that is refused for a zero extent in a LATER dimension while an earlier
+    dimension asks for another number of chunk rows (also: beyond the maximum, rank mismatch); then a full Write through the same
+    handle: the refused call must not have touched the handle's chunk grid (seeded change C16-e: data dropped / panic)"""
+    rank = rng.choice([2, 2, 3])
+    dims = [rng.choice([4, 6, 10, 20]) for _ in range(rank)]
+    chunk = [max(1, min(d, rng.choice([2, 3, 5]))) for d in dims]
+    maxd = [rng.choice([d * 4, histgen.UNLIMITED]) for d in dims]
+    dt = rng.choice(["int32", "float64", "uint8"])
+    d = dict(dtype=dt, dims=dims, chunk=chunk, maxdims=maxd)
+    ops = [{"op": "mkds", "path": "/r", "dtype": dt, "dims": dims, "chunk": chunk, "maxdims": maxd}, histgen.write_op(rng, "/r", d),
+           {"op": "mkds", "path": "/keep", "dtype": "int32", "dims": [2]}, {"op": "write", "path": "/keep", "val": "0100000002000000"}]
+    for _ in range(rng.choice([1, 2, 3])):
+        nd = list(dims)
+        k = rng.choice(["zero-late", "zero-late", "zero-first", "beyond", "rank"])
+        if k == "zero-late":
+            z = rng.randrange(1, rank)
+            for i in range(z):
+                nd[i] = rng.choice([max(1, dims[i] // 4), dims[i] * 2, dims[i] * 3])
+                if maxd[i] != histgen.UNLIMITED:
+                    nd[i] = min(nd[i], maxd[i])
+            nd[z] = 0
+        elif k == "zero-first":
+            nd[0] = 0; nd[-1] = max(1, dims[-1] // 2)
+        elif k == "beyond":
+            fixed = [i for i in range(rank) if maxd[i] != histgen.UNLIMITED]
+            if fixed:
+                nd[fixed[-1]] = maxd[fixed[-1]] + 1; nd[0] = max(1, dims[0] // 2)
+            else:
+                nd = nd + [1]
+        else:
+            nd = nd[:-1]
+        ops.append({"op": "resize", "path": "/r", "dims": nd})
+        if rng.random() < 0.8:
+            ops.append(histgen.write_op(rng, "/r", d))
+    ops += [{"op": "close"}, {"op": "close"}]
+    return ops
+
+
 def cases_for(rng, tier):
     n = 500 if tier == "quick" else 15000
     cases = []
@@ -127,6 +166,8 @@ def cases_for(rng, tier):
         cases.append({"sb": rng.choice([0, 2, 3]), "ops": invalid_args_case(rng)})
         cases.append({"sb": rng.choice([0, 2, 3]), "ops": cached_header_case(rng)})
         cases.append({"sb": rng.choice([0, 2, 3]), "ops": histgen.gen_mixed(rng, nops=rng.choice([20, 50]), fail_rate=0.4, sessions=rng.choice([1, 1, 2]))})
+    for _ in range(80 if tier == "quick" else 3000):
+        cases.append({"sb": rng.choice([0, 2, 3]), "ops": refused_resize_case(rng)})
     # hard links whose target's header chunk is nearly full: the reference-count message may not fit, the call then fails and
     # must leave NO name behind and the name must stay available (seeded change C03-e: link written before the count update)
     from props import c03
